@@ -13,6 +13,7 @@ and behind the end.  Its twin writes the same shorts in one call and reads them 
   C06              the concatenated deliveries are the twin's one sequential read
   C07              job and twin leave the same bytes
   C04 (frames)     N <= F < N + 2, F = 2 * bytes; the sequential read delivers F
+  C05 / C06        the file is byte-identical after the read handle is closed (a held sample is flushed by WRITE handles only)
 
 It needs no harness additions; the machinery (Job, analyse, run_model) is vlib/blockcamp.py's.
 """
@@ -21,8 +22,8 @@ from . import blockcamp as B
 
 TYS = ["s16", "s32", "f32", "f64"]
 CATS = {
-    "C05": {"count", "position", "eof", "crash", "open"},
-    "C06": {"stream", "position", "crash", "open"},
+    "C05": {"count", "position", "eof", "crash", "open", "readonly"},
+    "C06": {"stream", "position", "crash", "open", "readonly"},
     "C07": {"partition", "crash", "open"},
     "C04": {"frames", "eof", "crash", "open"},
 }
@@ -87,6 +88,8 @@ ANCHORS = [
     ("even-only", [("s16", 2), ("s32", 512), ("f32", 4096), ("f64", 2)], [2, 512, 4096, 2, 2]),
     ("odd-then-end", [("s16", 7)], [5, 5, 5]),             # a request that ends inside the last byte, then one that is cut by the end
     ("odd-last-byte", [("s16", 6)], [5, 1, 1]),
+    ("odd-read-then-close", [("s16", 6)], [1]),          # the read handle is closed while it holds a sample
+    ("odd-read-then-close-b", [("s32", 700)], [513, 2]),
 ]
 
 
@@ -117,6 +120,8 @@ def make_jobs(ctx, njobs):
             rparts.append(k)
             left -= k
         rparts += [rng.choice([1, 2, 3]), 1]
+        if rng.random() < 0.25:
+            rparts = rparts[:rng.randrange(1, len(rparts))]        # close in the middle of the file (maybe with a sample held)
         j, t = build(vox, "vox-n%d-%d" % (n, len(jobs)), rng, signal(rng, n, rng.randrange(3)), parts, rparts, rng.choice(TYS), flags,
                      units=[rng.choice("if") for _ in parts])
         jobs += [j, t]
@@ -125,7 +130,7 @@ def make_jobs(ctx, njobs):
 
 def campaign(ctx, njobs):
     jobs = make_jobs(ctx, njobs)
-    hs = {j.name: j.harness_script() for j in jobs}
+    hs = {j.name: j.harness_script() + "dump s0\n" for j in jobs}        # second dump: after the read handle is closed
     impl = ctx.batch([(j.name, hs[j.name]) for j in jobs], workers=4, clean=True)
     ms = []
     for j in jobs:
@@ -136,9 +141,17 @@ def campaign(ctx, njobs):
     stats = collections.Counter()
     probs, infos = [], {}
     for j in jobs:
-        p, info = B.analyse(j, hs[j.name], impl.get(j.name, []), model.get(j.name, []), None)
+        lines = impl.get(j.name, [])
+        p, info = B.analyse(j, hs[j.name][:-len("dump s0\n")], lines, model.get(j.name, []), None)
         infos[j.name] = info
         probs += p
+        # a read handle leaves the file alone (codec_close flushes a held sample on WRITE handles only)
+        dumps = [l for l in lines if l.startswith("len=") and "hex=" in l]
+        if len(dumps) == 2 and dumps[0] != dumps[1]:
+            x, y = dumps[0].split("hex=")[1], dumps[1].split("hex=")[1]
+            d = next((i for i in range(0, min(len(x), len(y)), 2) if x[i:i + 2] != y[i:i + 2]), min(len(x), len(y)))
+            probs.append(B.Problem(j, "pred", "readonly", "reading the file and closing the read handle changed its bytes (the two `dump` lines): byte %d of %d was %s, is %s (length now %d)"
+                                   % (d // 2, len(x) // 2, x[d:d + 2] or "<none>", y[d:d + 2] or "<none>", len(y) // 2), None))
         stats["jobs"] += 1
         stats["ops"] += len(j.calls) + len(j.rops) + 3
         stats["frames"] += j.n
